@@ -6,8 +6,10 @@ import (
 	"encoding/json"
 	"fmt"
 	"hash/fnv"
+	"net"
 	"sort"
 	"strings"
+	"sync"
 	"testing"
 	"testing/synctest"
 	"time"
@@ -122,6 +124,10 @@ type Knobs struct {
 	// that the connection handlers really run in parallel (real sync primitives,
 	// -race build); the cooperative scheduler has nothing to schedule then.
 	Burst bool `json:"burst,omitempty"`
+	// ViaStart (race sweep): the connections are accepted by the real server.Start
+	// (its accept loop, event loop and per-connection goroutines) through the
+	// listener hook, instead of being handed to Manager.Handle by the simulator.
+	ViaStart bool `json:"via_start,omitempty"`
 	// ConfigText, when set, is written to a file and read by the server's own
 	// config.Parse over the defaults of config.Setup; Databases/ShardNum above
 	// are then what the simulator expects the parse to yield.
@@ -224,6 +230,7 @@ type World struct {
 	idle     int
 	idleTime time.Duration
 	prio     map[string]int
+	lst      *simListener // ViaStart: what server.Start accepts from
 	starveName string // strategy 3: the task currently starved
 	starveLeft int
 	j        *core.Journal
@@ -361,12 +368,35 @@ func (w *World) run() {
 	w.vs.YieldOnRMW = k.YieldRMW
 	w.vs.AnonName = func(n int) string { return fmt.Sprintf("bg#%03d", n) }
 	w.res.start = time.Now()
-	w.mgr = server.NewManager(cfg)
-	w.res.Mgr = w.mgr
 	w.ctx, w.cancel = context.WithCancel(context.Background())
+	if k.ViaStart {
+		w.lst = &simListener{ch: make(chan net.Conn, 256), done: make(chan struct{})}
+		server.VerifListener = func(real net.Listener) net.Listener {
+			real.Close()
+			return w.lst
+		}
+		cfg.Host, cfg.Port = "127.0.0.1", 0
+		go func() {
+			defer func() {
+				if r := recover(); r != nil {
+					w.res.Panics = append(w.res.Panics, fmt.Sprintf("server.Start: panic: %v", r))
+				}
+			}()
+			server.Start(cfg)
+		}()
+		time.Sleep(time.Nanosecond)
+		synctest.Wait()
+		server.VerifListener = nil
+	} else {
+		w.mgr = server.NewManager(cfg)
+		w.res.Mgr = w.mgr
+	}
 
 	// prior keyspace, sequentially and without the scheduler
 	for _, c := range w.sc.Knobs.Preload {
+		if w.mgr == nil {
+			break
+		}
 		func() {
 			defer func() {
 				if r := recover(); r != nil {
@@ -399,6 +429,10 @@ func (w *World) run() {
 
 // accept starts the server's connection handler for a client.
 func (w *World) accept(i int, c *clientState) {
+	if w.lst != nil {
+		w.lst.ch <- c.conn
+		return
+	}
 	go func() {
 		w.vs.Register(c.prog.Name, i)
 		defer func() {
@@ -1040,7 +1074,7 @@ func (w *World) finish() {
 	}
 	w.res.VsyncErrs = append(w.res.VsyncErrs, w.vs.Violations...)
 	quiescent := w.res.Deadlock == "" && len(w.res.Panics) == 0 && !w.res.StepLimit && w.res.Stuck == "" && len(w.vs.Pending()) == 0
-	if quiescent {
+	if quiescent && w.mgr != nil {
 		func() {
 			defer func() {
 				if r := recover(); r != nil {
@@ -1058,6 +1092,9 @@ func (w *World) finish() {
 	}
 	// teardown: let every goroutine of the bubble finish
 	w.cancel()
+	if w.lst != nil {
+		w.lst.Close()
+	}
 	for _, c := range w.cs {
 		c.conn.clientClose()
 	}
@@ -1077,3 +1114,27 @@ func (w *World) finish() {
 		w.vs.Release(run)
 	}
 }
+
+// simListener is the net.Listener the real server.Start accepts from when the
+// scenario runs via Start: Accept yields the simulator's connections.
+type simListener struct {
+	ch   chan net.Conn
+	done chan struct{}
+	once sync.Once
+}
+
+func (l *simListener) Accept() (net.Conn, error) {
+	select {
+	case c := <-l.ch:
+		return c, nil
+	case <-l.done:
+		return nil, net.ErrClosed
+	}
+}
+
+func (l *simListener) Close() error {
+	l.once.Do(func() { close(l.done) })
+	return nil
+}
+
+func (l *simListener) Addr() net.Addr { return simAddr("sim-listener") }
